@@ -15,7 +15,8 @@
 EXTENDS Scenarios
 
 TargetKinds == {"local", "aux1", "aux2", "aux3", "trans", "selfrec", "mutual", "arrayself", "mapself",
-                "auxarrayself", "anonprop", "anonitems", "anonallof", "anonsibling", "sharedparam", "sharedresp", "diamond"}
+                "auxarrayself", "anonprop", "anonitems", "anonallof", "anonsibling", "sharedparam", "sharedresp", "diamond",
+                "uptrans", "crosstrans"}
 Shapes      == {"prim", "object", "arrayref", "tuple", "allof", "map", "nested", "ptrarray", "ref"}
 HolderKinds == {"prop", "items", "tuple", "addprops", "additems", "allof", "alias", "opbody", "pathbody",
                 "code", "default", "sharedparam", "sharedresp", "nested", "opnested", "opitems",
@@ -25,7 +26,7 @@ AuxHolders  == {"auxresp", "auxparam", "auxpathitem"}
 SecondKinds == {"none", "code", "prop2", "same"}
 Collisions  == {"none", "exact", "case", "twoimports"}
 
-AuxTargets  == {"aux1", "aux2", "aux3", "trans", "selfrec", "mutual", "auxarrayself", "diamond"}
+AuxTargets  == {"aux1", "aux2", "aux3", "trans", "selfrec", "mutual", "auxarrayself", "diamond", "uptrans", "crosstrans"}
 AnonTargets == {"anonprop", "anonitems", "anonallof", "anonsibling"}
 SharedPtrTargets == {"sharedparam", "sharedresp"}
 
@@ -63,6 +64,17 @@ TargetOf(t, s) ==
     [] t = "trans" -> [ref |-> <<"aux1", "definitions", "N_1">>, rootdefs |-> <<>>,
                        aux |-> [aux1 |-> AuxDoc([N_1 |-> ObjP([N_3 |-> RefTo(<<"aux2", "definitions", "N_2">>)])]),
                                 aux2 |-> AuxDoc([N_2 |-> Body(s, HelperIn("aux2")), N_7 |-> HelperDef])], params |-> <<>>, resps |-> <<>>]
+    \* transitive import whose second hop goes UP the directory tree (aux2 is two levels below the root, aux1 one: "../a.json")
+    [] t = "uptrans" -> [ref |-> <<"aux2", "definitions", "N_1">>, rootdefs |-> <<>>,
+                       aux |-> [aux2 |-> AuxDoc([N_1 |-> ObjP([N_3 |-> RefTo(<<"aux1", "definitions", "N_2">>)])]),
+                                aux1 |-> AuxDoc([N_2 |-> Body(s, HelperIn("aux1")), N_7 |-> HelperDef]),
+                                \* a decoy nobody references: same file name as aux1, in aux2's own directory
+                                aux4 |-> AuxDoc([N_2 |-> Mk([type |-> "boolean"], <<>>), N_7 |-> Mk([type |-> "boolean"], <<>>)])], params |-> <<>>, resps |-> <<>>]
+    \* ... or across to another subtree (aux3 lives beside the root's directory: "../../common/c.json")
+    [] t = "crosstrans" -> [ref |-> <<"aux1", "definitions", "N_1">>, rootdefs |-> <<>>,
+                       aux |-> [aux1 |-> AuxDoc([N_1 |-> ObjP([N_3 |-> RefTo(<<"aux3", "definitions", "N_2">>)])]),
+                                aux3 |-> AuxDoc([N_2 |-> Body(s, HelperIn("aux3")), N_7 |-> HelperDef]),
+                                aux5 |-> AuxDoc([N_2 |-> Mk([type |-> "boolean"], <<>>), N_7 |-> Mk([type |-> "boolean"], <<>>)])], params |-> <<>>, resps |-> <<>>]
     [] t = "selfrec" -> [ref |-> <<"aux1", "definitions", "N_1">>, rootdefs |-> <<>>,
                        aux |-> [aux1 |-> AuxDoc([N_1 |-> ObjP([N_3 |-> RefTo(<<"aux1", "definitions", "N_1">>), N_4 |-> Body(s, HelperIn("aux1"))]),
                                                  N_7 |-> HelperDef])], params |-> <<>>, resps |-> <<>>]
